@@ -269,3 +269,15 @@ Print Assumptions teardown_with_and_drops_everything.
 Example teardown_with_busy_worker :
   mt_example LOr = Some ([], [], [3; 2; 1]%N) /\ (exists q i d, mt_example LAnd = Some (q, i, d) /\ i <> []).
 Proof. exact teardown_mt_examples. Qed.
+
+(* one wake-up per successful push is what "executed eventually, no caller action" rests on when scheduled closures are
+   long-running or wait for later-scheduled ones: with every worker asleep and n <= workers closures pushed back to back,
+   nothing stays queued next to a sleeping worker *)
+Theorem schedule_internal_wake_every_push_no_stranded : forall n workers, stranded WakeEveryPush n workers = 0%nat.
+Proof. exact every_push_no_stranded. Qed.
+Print Assumptions schedule_internal_wake_every_push_no_stranded.
+(* waking only when the pipe goes from empty to non-empty: n-1 closures queued, workers asleep, no wake-up pending *)
+Theorem schedule_internal_wake_on_empty_transition_refuted : forall n workers, (2 <= n)%nat -> (2 <= workers)%nat ->
+  stranded WakeOnEmptyToNonEmpty n workers = (n - 1)%nat.
+Proof. exact empty_transition_strands_general. Qed.
+Print Assumptions schedule_internal_wake_on_empty_transition_refuted.
